@@ -195,6 +195,9 @@ SHAPES = ['', '\n', ' ', '\n\n\n', '// only a comment', '// c\n', '/* block */',
           'Enum "x.y" {\n  a\n}\nTable t {\n  id "x.y"\n}\n', 'Table "t{1}" {\n  "c{2}" int\n}\nTable u {\n  id int [ref: > "t{1}"."c{2}"]\n}\nRef "{n}": u.id <> "t{1}"."c{2}" // {c}\n',
           'Table t {\n  id int [default: ((((((1))))))]\n}\n', 'Table t {\n  id f(g(h(i(j(k(1))))))\n}\n', 'Table t {\n  id int\n  indexes {\n    `((((((a))))))`\n  }\n}\n',
           'Project "a\\nb" {\n}\n', 'Table t {\n  id int\n}\nTableGroup "g\\nh" {\n  t\n}\n', 'Table "a\\tb" {\n  "c\\nd" int\n}\n',
+          'Table t {\n  a int\n  b int\n}\nTable u {\n  id int\n}\nRef: t.(a, b) > u.id\n', 'Table t {\n  a int\n  b int\n}\nTable u {\n  id int\n}\nRef: u.id < t.(a, b)\n',
+          'Table t {\n  a int\n  b int\n}\nTable u {\n  id int\n  k int\n  l int\n}\nRef {\n  t.(a, b) <> u.(id, k, l)\n}\n', 'Table t {\n  a int\n}\nRef: t.a - t.(a, a)\n',
+          'Table "" {\n  "" ""\n}\n', 'Table ""."" {\n  id int\n}\nEnum "" {\n  ""\n}\n', 'Table t {\n  id int [note: \'\']\n  Note: \'\'\n}\nNote "" {\n  \'\'\n}\nProject "" {\n}\nTableGroup "" {\n}\n',
           'Table t {\n  id int [default: 99999999999999999999999999999999999999999999]\n}\n', 'Table t {\n  id int [default: 1.]\n}\n',
           'Table t {\n  id int [default: 00.00]\n}\n', "Table t {\n  id int [default: '\\\\']\n}\n", 'Ref: a.b > a.b\n', 'Table t {\n  id int [ref: > t.id]\n}\n',
           'Table t {\n  id int [ref: - t.id, ref: - t.id]\n}\n', 'Table t {\n  id int\n  id int\n}\n', 'Enum e {\n  a\n  a\n}\n',
